@@ -11,8 +11,9 @@ and every way of supplying the points enumerated (positional, keyword, None plac
 
 `x ** e` is the uninterpreted rpow(x, e): what is proved is the binding of arguments to indeterminates, that every
 term contributes exactly once with its own coefficient and exponents, int() conversion of the stored exponents,
-and the result shape.  Not within this proof (bounded run-time check conc/checks_c02.py): array-valued points
-(numpy.outer/reshape shape algebra), partial evaluation and polynomial substitution (numpoly.outer/power/multiply),
+and the result shape.  Polynomial substitution (every indeterminate given a 0-d polynomial; Call._substitution_cases) is
+proved at the level of abstract polynomial values: the same sum in the ring PV.  Not within this proof (bounded run-time
+check conc/checks_c02.py): array-valued points and arguments (numpy.outer/reshape shape algebra), partial evaluation,
 staged evaluation, machine-number kinds (Python int vs numpy scalar vs float).
 """
 from __future__ import annotations
@@ -72,6 +73,59 @@ def binding_cases():
     return out
 
 
+def substitution_cases():
+    """polynomial substitution: every indeterminate is given a scalar (0-d) polynomial"""
+    return [("D1.poly_positional", 1, (0,), {}), ("D1.poly_keyword", 1, (), {"q0": 0}), ("D2.poly_positional", 2, (0, 1), {}),
+            ("D2.poly_mixed", 2, (0,), {"q1": 1})]
+
+
+class PolyOuter:
+    """numpoly.outer(a, b) for a numeric array a and a 0-d polynomial b; only its reshape to a.shape (+ ()) is modelled:
+    element i is a[i] * b  (ASSUMED contract of numpoly.outer composed with reshape; bounded check C10/C02)"""
+
+    def __init__(self, a, b):
+        self.a, self.b = a, b
+
+    def sx_getattr(self, ex, attr, node):
+        return V.BoundMethod(self, attr)
+
+    def sx_isinstance(self, ex, name):
+        return name == "numpoly.ndpoly"
+
+    def sx_method(self, ex, attr, args, kw, node):
+        from engine.logic import ndim, PV
+        from engine.polymodel import the_idx, _num, _freeze
+        from contracts.division import pconst
+        from contracts.dispatchfn import pmul
+        if attr == "reshape" and len(args) == 1 and isinstance(args[0], ShapeV) and not kw:
+            a, b = self.a, self.b
+            ctx = ex.ctx
+            site = ex.site("outer_reshape")
+            ex.oblige(f"pre({site}).second_operand_0d", ndim(b.shape) == 0, "precondition", node)
+            ex.oblige(f"pre({site}).target_shape", args[0].term == sconcat(a.shape, b.shape), "precondition", node)
+            fa = _freeze(a)
+            r = Poly(ctx, ctx.fresh("outer"), shape=args[0].term, region=Region("fresh", "outer"))
+            r.owndata = z3.BoolVal(True)
+            ctx.assume(r.wf(ctx))
+            ctx.assume(ctx.forall_range(0, r.N, lambda t: keyok(r.row(t), r.D)))
+            ctx.assume(ctx.forall_idx(lambda i: r.val(i) == pmul(pconst(_num(fa(i))), b.val(the_idx(b.shape))), args[0].term))
+            r.outer_of = (a, b)
+            return r
+        raise U(f"outer product .{attr}", node)
+
+
+def install_axioms(reg):
+    prev = reg.fn.get("numpoly.outer")
+
+    def outer(ex, args, kw, node):
+        if len(args) == 2 and isinstance(args[0], Arr) and isinstance(args[1], Poly) and not kw:
+            return PolyOuter(args[0], args[1])
+        if prev is not None:
+            return prev(ex, args, kw, node)
+        raise U("numpoly.outer in this form", node)
+    reg.fn["numpoly.outer"] = outer
+
+
 class Call(Contract):
     name = "numpoly.call"
     relpath = "numpoly/poly_function/call.py"
@@ -79,8 +133,11 @@ class Call(Contract):
     properties = ("C02", "C17")
     positional = ("poly", "args", "kwargs")
     assumptions = ("A1: evaluation points and coefficients are mathematical reals; x**e is uninterpreted (rpow)",
-                   "indeterminate tuples enumerated: (q0,), (q0, q1); ways of supplying points enumerated (10 cases)",
-                   "scalar points only; assumed shape-only contract of numpoly.polynomial for numbers")
+                   "indeterminate tuples enumerated: (q0,), (q0, q1); ways of supplying points enumerated (10 + 4 cases)",
+                   "scalar points / 0-d polynomials only; assumed shape-only contract of numpoly.polynomial for numbers",
+                   "polynomial substitution: value-level contracts of power (proved: PowerScalar), multiply (proved), add (proved), "
+                   "clean_attributes / align_indeterminants (proved: value kept); ASSUMED: numpoly.outer(array, 0-d polynomial) reshaped "
+                   "to the array's shape is the element-wise product; B10 (a constant polynomial denotes the constant tonumpy returns)")
 
     def _loops(self, D):
         def inv(ex, env, k):
@@ -103,7 +160,106 @@ class Call(Contract):
             return [unfold_at(k + 1)]
         return {3: LoopSpec(inv, havoc, modifies=mods, peel=1, ghost=ghost)}
 
+    def _loops_poly(self, D):
+        def inv(ex, env, k):
+            g = ex.ghost
+            out = env["out"]
+            if not isinstance(out, Poly):
+                return [("accumulator_is_a_polynomial", z3.BoolVal(False))]
+            S = g["P"].shape
+            return [("shape", out.shape == S),
+                    ("rows_storable", ex.ctx.forall_range(0, out.N, lambda t: keyok(out.row(t), out.D))),
+                    ("partial_sum_of_the_first_k_terms", ex.ctx.forall_idx(lambda i: out.val(i) == g["SP"](k, i), S))]
+
+        def havoc(ex, env, k):
+            P = ex.ghost["P"]
+            o = Poly(ex.ctx, ex.ctx.fresh("acc"), shape=P.shape, region=Region("fresh", "accumulator"))
+            o.owndata = z3.BoolVal(True)
+            ex.ctx.assume(o.wf(ex.ctx))
+            env["out"] = o
+        mods = ("out", "term", "tmp", "exponent", "coefficient", "power", "name")
+
+        def ghost(ex, env, k):
+            from engine.logic import unfold_at
+            return [unfold_at(k + 1), unfold_at(k)]
+        return {3: LoopSpec(inv, havoc, modifies=mods, peel=1, ghost=ghost)}
+
+    def _substitution_cases(self):
+        from engine.logic import PV, unfold_at
+        from engine.polymodel import the_idx
+        from contracts.division import ring_axioms, pconst, pzero
+        from contracts.dispatchfn import padd, pmul
+        from contracts.multiply import ppow, pone
+        for label, D, args, kwargs in substitution_cases():
+            def make_env(ex, D=D, args=args, kwargs=kwargs):
+                ctx = ex.ctx
+                for a in shape_axioms(ctx) + extra_shape_axioms(ctx) + mono_axioms(ctx) + order_axioms(ctx) + eok_axioms() + ring_axioms(ctx):
+                    ctx.assume(a)
+                P = Poly(ctx, "poly", D=D, region=Region("caller", "poly"))
+                ctx.assume(P.wf(ctx))
+                ctx.assume(ctx.forall_range(0, P.N, lambda t: keyok(P.row(t), P.D)))
+                P.concrete_names = list(NAMES[:D])
+                for d in range(D):
+                    ctx.assume(nat(P.names, d) == as_name(ex, NAMES[d]))
+                subs = []
+                for d in range(D):
+                    q = Poly(ctx, f"sub{d}", shape=shp0, region=Region("caller", f"sub{d}"))
+                    ctx.assume(q.wf(ctx))
+                    ctx.assume(ctx.forall_range(0, q.N, lambda t, q=q: keyok(q.row(t), q.D)))
+                    subs.append(q)
+                vs = [q.val(the_idx(shp0)) for q in subs]
+                x = z3.Const(ctx.fresh("x"), PV)
+                ctx.assume(z3.And(pconst(z3.RealVal(1)) == pone, z3.ForAll([x], pmul(pone, x) == x)))
+                SP = ctx.func("SP", I, Idx, PV)
+                k, i = z3.Int(ctx.fresh("k")), z3.Const(ctx.fresh("i"), Idx)
+
+                def T(t):
+                    out = ppow(vs[0], expo(P.row(t), 0))
+                    for d in range(1, D):
+                        out = pmul(out, ppow(vs[d], expo(P.row(t), d)))
+                    return out
+                ctx.assume(z3.ForAll([i], SP(0, i) == pzero))
+                ctx.assume(z3.ForAll([k, i], z3.Implies(k >= 1, SP(k, i) == padd(SP(k - 1, i), pmul(pconst(P.C(k - 1, i)), T(k - 1)))),
+                                     patterns=[z3.MultiPattern(SP(k, i), unfold_at(k))]))
+                ctx.assume(unfold_at(1))
+                ex.ghost = {"P": P, "SP": SP, "subs": subs}
+                ex.hooks = {}
+                return {"poly": P, "args": tuple(subs[v] for v in args),
+                        "kwargs": {n: subs[v] for n, v in kwargs.items()}}
+
+            def check(out):
+                ex, ctx = out.ex, out.ctx
+                P, SP = ex.ghost["P"], ex.ghost["SP"]
+                ex.oblige(f"raises.nothing[{out.exc}:{out.value}]" if out.kind == "raise" else "raises.nothing", z3.BoolVal(out.kind == "return"), "post")
+                if out.kind != "return":
+                    return
+                r = out.value
+                if isinstance(r, Arr):
+                    src = getattr(r, "tonumpy_of", None)
+                    ok = isinstance(src, Poly)
+                    ex.oblige("post.constant_result_is_tonumpy_of_the_sum", z3.BoolVal(ok), "post")
+                    if not ok:
+                        return
+                    ex.oblige("post.shape_is_poly_shape", z3.And(r.shape == P.shape, src.shape == P.shape), "post")
+                    ex.oblige("post.value_is_sum_over_terms_of_coefficient_times_argument_powers",
+                              ctx.forall_idx(lambda i: src.val(i) == SP(P.N, i), P.shape), "post",
+                              note="(the numeric array returned is the constant polynomial's coefficient: B10)")
+                    return
+                ok = isinstance(r, Poly)
+                ex.oblige("post.polynomial_for_polynomial_arguments", z3.BoolVal(ok), "post")
+                if not ok:
+                    return
+                ex.oblige("post.shape_is_poly_shape", r.shape == P.shape, "post")
+                ex.oblige("post.value_is_sum_over_terms_of_coefficient_times_argument_powers",
+                          ctx.forall_idx(lambda i: r.val(i) == SP(P.N, i), P.shape), "post",
+                          note="p(a_0, .., a_{D-1}) = sum_t C_t * prod_d a_d ** E(t, d) in the polynomial ring")
+            yield Case(label, make_env, check, loops=self._loops_poly(D))
+
     def cases(self):
+        yield from self._numeric_cases()
+        yield from self._substitution_cases()
+
+    def _numeric_cases(self):
         for label, D, args, kwargs, outcome in binding_cases():
             def make_env(ex, D=D, args=args, kwargs=kwargs):
                 ctx = ex.ctx
